@@ -958,3 +958,98 @@ func TestVxC03Session(t *testing.T) {
 		},
 	})
 }
+
+// ---- C09 through a real session: routing key from the PREPARED response's pk indexes -----------------
+
+var vxC09Kinds = map[string]*cqlspec.Type{"int": cqlspec.Scalar(cqlspec.Int), "bigint": cqlspec.Scalar(cqlspec.Bigint), "smallint": cqlspec.Scalar(cqlspec.Smallint),
+	"tinyint": cqlspec.Scalar(cqlspec.Tinyint), "text": cqlspec.Scalar(cqlspec.Varchar), "varchar": cqlspec.Scalar(cqlspec.Varchar), "ascii": cqlspec.Scalar(cqlspec.Ascii),
+	"blob": cqlspec.Scalar(cqlspec.Blob), "boolean": cqlspec.Scalar(cqlspec.Boolean), "uuid": cqlspec.Scalar(cqlspec.UUID), "timeuuid": cqlspec.Scalar(cqlspec.TimeUUID),
+	"timestamp": cqlspec.Scalar(cqlspec.Timestamp), "double": cqlspec.Scalar(cqlspec.Double), "float": cqlspec.Scalar(cqlspec.Float), "inet": cqlspec.Scalar(cqlspec.Inet),
+	"time": cqlspec.Scalar(cqlspec.Time), "varint": cqlspec.Scalar(cqlspec.Varint), "decimal": cqlspec.Scalar(cqlspec.Decimal), "date": cqlspec.Scalar(cqlspec.Date),
+	"list<int>": {Kind: cqlspec.List, Elems: []*cqlspec.Type{cqlspec.Scalar(cqlspec.Int)}}}
+
+func TestVxC09SessionRoutingKey(t *testing.T) {
+	vx.Check(t, vx.Prop{ID: "C09", Part: "TestVxC09SessionRoutingKey",
+		Rule: "the routing-key cases of TestVxC09RoutingKey through the public API: a real protocol-4/5 session prepares a statement whose PREPARED response (scripted node) declares the bound columns and the partition-key indexes in partition-key order; Query.GetRoutingKey() must be the raw value (single key) or len16|bytes|0 per component in partition-key order; non-trivial = >= 2 components bound out of partition-key order; distinct by the case",
+		Draw: func(t *rapid.T) interface{} {
+			c := vxC09DrawRK(t)
+			if c.Proto < 4 {
+				c.Proto = 4
+			}
+			return c
+		},
+		New: func() interface{} { return &vxC09RKCase{} },
+		Run: func(ci interface{}, k *vstats.Case) error {
+			c := ci.(*vxC09RKCase)
+			n := len(c.Comps)
+			if n < 1 || n > 8 || len(c.Idx) != n || c.NVals < n || c.NVals > 16 || c.Proto < 4 || c.Proto > 5 {
+				return nil
+			}
+			values := make([]interface{}, c.NVals)
+			cols := make([]cqlspec.Column, c.NVals)
+			for i := range values {
+				values[i] = 7
+				cols[i] = cqlspec.Column{Keyspace: "ks1", Table: "t", Name: "c" + itoa(i), Type: cqlspec.Scalar(cqlspec.Int)}
+			}
+			seen := map[int]bool{}
+			var encs [][]byte
+			total := 0
+			inOrder := true
+			for i, comp := range c.Comps {
+				if c.Idx[i] < 0 || c.Idx[i] >= c.NVals || seen[c.Idx[i]] || vxC09Kinds[comp.T] == nil {
+					return nil
+				}
+				seen[c.Idx[i]] = true
+				if i > 0 && c.Idx[i] < c.Idx[i-1] {
+					inOrder = false
+				}
+				ti, v, _, err := vxC09Value(comp, byte(c.Proto))
+				if err != nil {
+					return nil
+				}
+				enc, err := Marshal(ti, v)
+				if err != nil {
+					return nil
+				}
+				if n == 1 && len(enc) == 0 {
+					return nil
+				}
+				values[c.Idx[i]] = v
+				cols[c.Idx[i]].Type = vxC09Kinds[comp.T]
+				encs = append(encs, enc)
+				total += len(enc) + 3
+			}
+			if total > 65535 {
+				return nil
+			}
+			if n >= 2 && !inOrder {
+				k.NonTrivial()
+			}
+			k.Class(fmt.Sprintf("components=%d", n))
+			cl := vnode.NewCluster(vxSpecs(1, 1))
+			cl.Nodes()[0].Handler = func(rc *vnode.ReqCtx) {
+				if rc.Req.Kind == "PREPARE" {
+					rc.Reply(&cqlspec.Response{Kind: "PREPARED", PreparedIDHex: "aa", Meta: &cqlspec.Metadata{Columns: cols, PKIndexes: c.Idx, GlobalSpec: true, Keyspace: "ks1", Table: "t"},
+						ResultMeta: &cqlspec.Metadata{Columns: []cqlspec.Column{}}})
+					return
+				}
+				rc.Reply(vxVoid())
+			}
+			s, err := vxClusterConfig(cl, c.Proto, nil).CreateSession()
+			if err != nil {
+				return fmt.Errorf("harness: CreateSession: %v", err)
+			}
+			defer s.Close()
+			stmt := "SELECT * FROM t WHERE " + strings.TrimSuffix(strings.Repeat("c = ? AND ", c.NVals), " AND ")
+			got, err := s.Query(stmt, values...).GetRoutingKey()
+			if err != nil {
+				return fmt.Errorf("GetRoutingKey failed: %v", err)
+			}
+			want := cqlspec.RoutingKey(encs)
+			if !bytes.Equal(got, want) {
+				return fmt.Errorf("GetRoutingKey() = %x, want %x (components %v bound at %v)", got, want, c.Comps, c.Idx)
+			}
+			return nil
+		},
+	})
+}
